@@ -11,7 +11,7 @@ import os
 import random
 import time
 
-from .. import harness, explore, detsched
+from .. import harness, explore, detsched, statereset
 from ..detsched import Sched, DetQueue, SHIM, AbortExecution
 from ..env.s3 import FakeS3, FakeClient, FaultPlan
 from ..env.fs import FaultyOSUtils, ScratchDir
@@ -135,6 +135,8 @@ def run_pp(cfg, prefix, scratch):
     """cfg: workers, downloads=[dict(size,t,c,pre)], script, inject, faults"""
     harness.install()
     install_pp()
+    statereset.register(pp)
+    statereset.restore()
     scratch.reset()
     random.seed(cfg.get('seed', 0) * 131 + 7)
     s = Sched(prefix=prefix, horizon=20000)
@@ -287,6 +289,12 @@ def judge(w):
             if n_comp_before < n_put_total:
                 out.append(('C19:done-before-all-jobs',
                             f'download {i} became done at step {d0} with {n_comp_before}/{n_put_total} jobs accounted for'))
+            running = [c for c in w.s3.calls if c['op'] == 'GetObject' and c['kwargs'].get('Key') == f'k{i}' and
+                       c['begin'] is not None and (c['begin'] > d0 or c['end'] is None or c['end'] > d0)]
+            if running:
+                c = running[0]
+                out.append(('C19:done-while-job-running',
+                            f'download {i} became done at step {d0} while GetObject {c["kwargs"].get("Range")} (begin {c["begin"]}, end {c["end"]}) had not finished'))
             listing, cur = w.snap.get(tid, (None, None))
             exc_at_done = None
             oc = w.outcomes.get(i)
